@@ -88,7 +88,12 @@ func NewLinearBackoff(m, b time.Duration) BackoffFunc {
 func NewExponentialBackoff(initial time.Duration, doubleEvery int) BackoffFunc {
 	return func(numRetries int, elapsed time.Duration) time.Duration {
 		x := float64(numRetries) / float64(doubleEvery)
-		return time.Duration(float64(initial) * math.Exp2(x))
+		d := float64(initial) * math.Exp2(x)
+		if d >= math.MaxInt64 {
+			// the conversion of an out-of-range float is implementation-defined (negative on amd64)
+			return math.MaxInt64
+		}
+		return time.Duration(d)
 	}
 }
 
